@@ -46,6 +46,16 @@ pub fn panic_msg(e: Box<dyn std::any::Any + Send>) -> String {
     }
 }
 
+/// TLC's Json module cannot read `null`: trace events carry the string "none" instead
+fn denull(v: &mut Value) {
+    match v {
+        Value::Null => *v = json!("none"),
+        Value::Array(a) => a.iter_mut().for_each(denull),
+        Value::Object(o) => o.values_mut().for_each(denull),
+        _ => {}
+    }
+}
+
 fn replay(kind: &str, vecs: &str, out: &str, threads: usize) -> anyhow::Result<()> {
     let f: fn(&Value) -> Outcome = checks::replay_fn(kind)?;
     let lines: Vec<String> = std::io::BufReader::new(std::fs::File::open(vecs)?)
@@ -109,7 +119,8 @@ fn replay(kind: &str, vecs: &str, out: &str, threads: usize) -> anyhow::Result<(
     let mut tw = std::io::BufWriter::new(std::fs::File::create(format!("{out}.trace"))?);
     let mut nev = 0usize;
     for (m, t, e, nt, tr) in results {
-        for x in tr {
+        for mut x in tr {
+            denull(&mut x);
             writeln!(tw, "{x}")?;
             nev += 1;
         }
